@@ -185,4 +185,13 @@ def stages(tier, seed):
         dict(label='rel', variant='rel', groups=groups, floors=FLOORS),
         dict(label='dbg', variant='dbg', groups=groups, floors=FLOORS),
     ]
+    if tier != 'quick':
+        # other carry implementations: 32-bit digits with the _addcarry_u32 intrinsic (i686) and the portable
+        # overflowing_add fallback (aarch64), interpreted by Miri
+        from ..cross import portable
+        rnd = rng_for(seed, 'C01x', tier)
+        small = [c for c in portable(cmds) if len(c.line) < 1500]
+        sub = rnd.sample(small, min(len(small), 1500))
+        st.append(dict(label='miri-i686', variant='miri-i686', tool='miri:i686', groups=[[c] for c in sub], shard_min=8, timeout=2400))
+        st.append(dict(label='miri-aarch64', variant='miri-aarch64', tool='miri:aarch64', groups=[[c] for c in sub], shard_min=8, timeout=2400))
     return st
